@@ -208,6 +208,15 @@ type handlerInfo struct {
 	// field paths of the receiver the handler unconditionally sets to a non-nil value (`s.Clause.Match = NewMatch(…)`):
 	// what the handlers of the rules below, run by the same visitor, may rely on
 	Establishes []string
+	// field paths of the receiver, of pointer type, that the handler looks through (`s.Clause.Match.Where`), each with the
+	// guard under which it does
+	Derefs []derefEvent
+}
+
+type derefEvent struct {
+	Path  string
+	Guard *bexpr
+	Pos   token.Pos
 }
 
 type VisitorType struct {
@@ -982,6 +991,11 @@ func (w *hwalk) expr(e ast.Expr, g *bexpr) {
 		w.expr(x.X, g)
 	case *ast.SelectorExpr:
 		w.expr(x.X, g)
+		if p := w.recvPath(x.X); p != "" && w.depth == 0 {
+			if _, isPtr := w.vm.pkg.TypesInfo.TypeOf(x.X).Underlying().(*types.Pointer); isPtr {
+				w.hi.Derefs = append(w.hi.Derefs, derefEvent{Path: p, Guard: g, Pos: x.Pos()})
+			}
+		}
 	case *ast.IndexExpr:
 		w.expr(x.X, g)
 		w.expr(x.Index, g)
